@@ -37,7 +37,7 @@ CHUNK = 1
 
 def bounds(tier, seed):
     return {
-        "n_trajectories": [1, 2, 3, 4, 5] + ([8, 20] if tier == "thorough" else []),
+        "n_trajectories": [1, 2, 3, 4, 5, 33] + ([8, 20, 40] if tier == "thorough" else []),
         "noise": ["none", "relaxation (trajectory-invariant)", "SPAM: every mask sequence (n<=3)", "amplitude: z-alphabet {-1.5, 0, 2}", "register: displacement alphabet", "detuning"],
         "shots": [1, 7, 100],
         "backends": ["sv", "mps"],
@@ -45,7 +45,7 @@ def bounds(tier, seed):
 
 
 def cases(tier, seed):
-    ns = [1, 2, 3, 4, 5] + ([8, 20] if tier == "thorough" else [])
+    ns = [1, 2, 3, 4, 5] + ([8, 20, 40] if tier == "thorough" else [])
     for be in ("sv", "mps"):
         natoms = 2 if be == "sv" else 3
         masks = [m for m in itertools.product((0, 1), repeat=natoms) if natoms - sum(m) >= (0 if be == "sv" else 2)]
@@ -55,6 +55,8 @@ def cases(tier, seed):
             for seqm in itertools.product(range(len(masks)), repeat=n):
                 for shots in (7,) if n == 3 else (1, 7):
                     yield {"backend": be, "noise": "SPAM", "n": n, "script": [list(masks[i]) for i in seqm], "shots": shots}
+        # many trajectories (more than any internal batching / folding size such as 32): only cheap shot-to-shot noise
+        yield {"backend": be, "noise": "amplitude", "n": 33, "script": [[-1.5, 0.0, 2.0][k % 3] * (1 + k / 40) for k in range(33)], "shots": 1}
         for n in ns:
             for noise in ("none", "relaxation", "amplitude", "detuning", "register", "eff_noise_only"):
                 if be == "mps" and noise == "relaxation" and n > 3:
